@@ -166,6 +166,7 @@ class Machine:
         s.panicked = []
         s.opaque_used = set()
         s.shims_used = set()
+        s.free_bool_atoms = True
         s.npaths = 0
 
     # ------------------------------------------------------------------ helpers
@@ -1030,7 +1031,12 @@ class Machine:
                 q.pc.append(c)
             if fix:
                 fix(q)
-            if c is True or s.feasible(q):
+            # an opaque Boolean atom (ulps_eq(..), is_finite(..), a Bool input) not yet on the path can take either value
+            atom = node(c) if is_sym(c) else None
+            if atom is not None and atom[0] == 'not' and is_sym(atom[1]):
+                atom = node(atom[1])
+            free_atom = atom is not None and atom[0] in ('app', 'var') and s.free_bool_atoms
+            if c is True or free_atom or s.feasible(q):
                 live.append((q, cont))
             else:
                 s.stats['pruned'] += 1
